@@ -85,6 +85,12 @@ def rejections(layout):
             df2.at[1 if rgpos == 0 else 5, c2] = None
             out.append((f"null-in-required col{colpos} rg{rgpos}", "late-required",
                         append(df2, row_group_offsets=[0, 4]), False))
+    # the same failure after MANY bytes of new row groups have been written (more than the old footer is long):
+    # only then does a missing truncate / wrong restore offset show
+    for colpos in (0, 2):
+        big = base_frame(6000, 100)
+        big.at[5500, ["a", "b", "c"][colpos]] = {"not": "encodable"}
+        out.append((f"unencodable-value col{colpos} after-2-large-row-groups", "late", append(big, row_group_offsets=[0, 2000, 4000]), False))
     # unsupported column type
     for colpos in (0, 1, 2):
         df = base_frame(8, 100)
